@@ -339,28 +339,51 @@ def run(ctx) -> list[Inst]:
         f, values, selfn, memon, copied = info['AttackGraph']
         rel = f.module.relpath
         relinked = {}
+        cfgf = ctx.cfg(f)
+        Rf = ctx.R(f)
         for n in own_nodes(f.node):
-            if isinstance(n, ast.For) and isinstance(n.target, ast.Name) \
-                    and classify(n.iter, selfn, memon) == ('self', 'nodes', False):
-                lv = n.target.id
-                for b in ast.walk(n):
-                    if isinstance(b, ast.Assign) and len(b.targets) == 1 and isinstance(b.targets[0], ast.Attribute):
-                        tg = b.targets[0]
-                        if _memo_index(tg.value, memon) == lv:
-                            v = b.value
-                            good = (isinstance(v, ast.Call) and isinstance(v.func, ast.Attribute)
-                                    and v.func.attr == 'deepcopy' and v.args
-                                    and isinstance(v.args[0], ast.Attribute) and v.args[0].attr == tg.attr
-                                    and isinstance(v.args[0].value, ast.Name) and v.args[0].value.id == lv
-                                    and ((len(v.args) > 1 and isinstance(v.args[1], ast.Name) and v.args[1].id == memon)
-                                         or any(k.arg == 'memo' for k in v.keywords)))
-                            if not good and isinstance(v, ast.ListComp) and len(v.generators) == 1:
-                                g = v.generators[0]
-                                good = (isinstance(g.iter, ast.Attribute) and g.iter.attr == tg.attr
-                                        and isinstance(g.iter.value, ast.Name) and g.iter.value.id == lv
-                                        and isinstance(g.target, ast.Name)
-                                        and _memo_index(v.elt, memon) == g.target.id)
-                            relinked[tg.attr] = (good, b)
+            if not isinstance(n, ast.For):
+                continue
+            hnode = cfgf.node_of(n)
+            # which loop-target names range over the ORIGINAL nodes (self.nodes[*]) and which over copies
+            names = []
+            cfgf._targets(n.target, names)
+            orig, copies = set(), set()
+            for nm in names:
+                idx = Rf._target_index(n.target, nm)
+                ps = Rf._iter_elem_paths(n.iter, idx, hnode)
+                if ps and all(p.root == ('param', selfn) and p.steps == ('nodes', '[*]') for p in ps):
+                    orig.add(nm)
+                elif ps and all(p.root[0] == 'fresh' or (p.steps and p.steps[-2:] == ('nodes', '[*]')) for p in ps):
+                    copies.add(nm)
+            if not orig:
+                continue
+            for b in ast.walk(n):
+                if isinstance(b, ast.Assign) and len(b.targets) == 1 and isinstance(b.targets[0], ast.Attribute):
+                    tg = b.targets[0]
+                    lv = None
+                    mi = _memo_index(tg.value, memon)
+                    if mi in orig:
+                        lv = mi
+                    elif isinstance(tg.value, ast.Name) and tg.value.id in copies and len(orig) == 1:
+                        lv = next(iter(orig))      # paired copy: zip(self.nodes, copied.nodes)
+                    if lv is None:
+                        continue
+                    v = b.value
+                    good = (isinstance(v, ast.Call) and isinstance(v.func, ast.Attribute)
+                            and v.func.attr == 'deepcopy' and v.args
+                            and isinstance(v.args[0], ast.Attribute) and v.args[0].attr == tg.attr
+                            and isinstance(v.args[0].value, ast.Name) and v.args[0].value.id == lv
+                            and ((len(v.args) > 1 and isinstance(v.args[1], ast.Name) and v.args[1].id == memon)
+                                 or any(k.arg == 'memo' for k in v.keywords)))
+                    if not good and isinstance(v, ast.ListComp) and len(v.generators) == 1:
+                        g = v.generators[0]
+                        good = (isinstance(g.iter, ast.Attribute) and g.iter.attr == tg.attr
+                                and isinstance(g.iter.value, ast.Name) and g.iter.value.id == lv
+                                and isinstance(g.target, ast.Name)
+                                and _memo_index(v.elt, memon) == g.target.id)
+                    if tg.attr not in relinked or good:
+                        relinked[tg.attr] = (good, b)
         for F in node_empty_relations:
             props = PROPS + ('C09',) + (('C11',) if F == 'compromised_by' else ())
             construct = f'(c) AttackGraphNode.{F} re-linked by the graph copy'
